@@ -86,7 +86,7 @@ inline std::vector<VMut> value_muts(Cat &C, const std::string &cls, mpz_srcptr v
 }
 
 struct LineMut {
-	size_t k = 0; int field = -1; std::string role, mut, orig, text, why; enum Op { REPL, DEL, SWAP } op = REPL; bool judged = true, equal = false;
+	size_t k = 0; int field = -1; std::string role, cls, mut, orig, text, why;     // role: stable name of the target; cls: value class enum Op { REPL, DEL, SWAP } op = REPL; bool judged = true, equal = false;
 };
 
 struct Tok { std::string text; char delim; };
@@ -115,14 +115,27 @@ inline size_t blocks_of(const std::string &proto) {
 	return 1;
 }
 
+// positional names of the lines of fixed-shape transcripts (from the protocol code); other protocols: value class
+inline std::vector<std::string> line_names(const std::string &proto, size_t nlines) {
+	std::vector<std::string> n;
+	if (proto == "vtmf/key-nizk") n = {"h_i", "c", "r"};
+	else if (proto == "vtmf/key-interactive") n = {"m_1", "m_2"};
+	else if (proto == "vtmf/cp-plain" || proto == "vtmf/cp-table" || proto == "vtmf/mask" || proto == "vtmf/remask" || proto == "tmcg/maskcard-vtmf") n = {"c", "r"};
+	else if (proto == "vtmf/or-first" || proto == "vtmf/or-second") n = {"c_1", "c_2", "r_1", "r_2"};
+	else if (proto == "vtmf/decrypt" || proto == "tmcg/cardsecret-vtmf") n = {"d_i", "fingerprint", "c", "r"};
+	else if (proto == "pedersen/commit" || proto == "pedersen/trapdoor-commit") n = {"c", "r"};
+	if (n.size() != nlines) n.clear();
+	return n;
+}
+
 inline std::vector<LineMut> gen_line_muts(Cat &C, const std::vector<std::string> &pl, bool full, const std::string &proto) {
 	std::vector<LineMut> out; mpz_t v; mpz_init(v);
 	bool ni_qr = C.qr && (proto == "rabin/sign" || proto == "rabin/key-nizk");
-	size_t rot = 0;
+	size_t rot = 0; std::vector<std::string> names = line_names(proto, pl.size());
 	for (size_t k = 0; k < pl.size(); k++) {
 		const std::string &l = pl[k];
 		auto push = [&](int field, const std::string &role, const std::string &mut, const std::string &orig, const std::string &text, bool judged, LineMut::Op op = LineMut::REPL, const std::string &why = "") {
-			LineMut m; m.why = why; m.k = k; m.field = field; m.role = role; m.mut = mut; m.orig = orig; m.text = text; m.judged = judged; m.op = op;
+			LineMut m; m.why = why; m.k = k; m.field = field; m.role = (field < 0 && !names.empty()) ? names[k] : role; m.cls = role; m.mut = mut; m.orig = orig; m.text = text; m.judged = judged; m.op = op;
 			m.equal = (op == LineMut::REPL && text == l) || (op == LineMut::SWAP && (k + 1 >= pl.size() || pl[k + 1] == l));
 			out.push_back(m);
 		};
